@@ -71,21 +71,26 @@ MetaChecks(p, o2, sch2, ev, n) ==
       metaTouched == D \cap MetaTables # {}
       \* C10 speaks about removals requested through user actions; ApplyUndoActions/ApplyDocActions
       \* replay raw doc actions and are judged by C01/C03 instead
-      removedSomewhere == ev.tag = "ua" /\ \E t \in D : Removed(p, o2, t) # {}
+      \* ... and only calls that request nothing but removals are judged: a bundle that removes a row
+      \* and then explicitly writes its id into a cell is asking for the dangling reference
+      removedSomewhere == ev.tag = "ua" /\ ev.onlyrm /\ \E t \in D : Removed(p, o2, t) # {}
   IN (IF metaTouched
       THEN Check(DanglingMetaRefs(o2) = {}, n, "C09.resolve", DanglingMetaRefs(o2))
            \o Check(NullMetaRefs(o2) = {}, n, "C09.nonnull", NullMetaRefs(o2))
            \o Check(FieldColMismatch(o2) = {}, n, "C09.fieldcol", FieldColMismatch(o2))
+           \o Check(RawSectionMismatch(o2) = {}, n, "C09.rawsection", RawSectionMismatch(o2))
            \o Check(TableRecordMismatch(o2, sch2) = {}, n, "C09.onerec", TableRecordMismatch(o2, sch2))
            \o Check(UnusedHelpers(o2) = {}, n, "C09.helpers", UnusedHelpers(o2))
       ELSE <<>>)
      \o Check(BadPositions(o2, D) = {}, n, "C20.positions", BadPositions(o2, D))
+     \o (IF HasTwoWay(o2) THEN Check(TwoWayViolations(o2) = {}, n, "C11.symmetric", TwoWayViolations(o2))
+         ELSE <<>>)
+     \o (IF HasSummary(o2) THEN Check(SummaryViolations(o2) = {}, n, "C12.exact", SummaryViolations(o2))
+         ELSE <<>>)
      \o (IF removedSomewhere
          THEN Check(StillPointing(p, o2, DOMAIN o2) = {}, n, "C10.ref", StillPointing(p, o2, DOMAIN o2))
-              \o (IF ev.onlyrm
-                  THEN Check(BadRefListCleanup(p, o2, DOMAIN o2) = {}, n, "C10.reflist",
-                             BadRefListCleanup(p, o2, DOMAIN o2))
-                  ELSE <<>>)
+              \o Check(BadRefListCleanup(p, o2, DOMAIN o2) = {}, n, "C10.reflist",
+                       BadRefListCleanup(p, o2, DOMAIN o2))
          ELSE <<>>)
 
 (***************************************************************************)
